@@ -7,7 +7,7 @@ import (
 	"hash/fnv"
 	"math"
 	"reflect"
-	"regexp"
+	"sort"
 
 	"github.com/shiwano/errdef"
 	"github.com/shiwano/errdef/unmarshaler"
@@ -49,8 +49,16 @@ func init() {
 			for _, c := range umCorpusExtra() {
 				out = append(out, runC12(c12Desc{Case: c})...)
 			}
+			// corpus: K11 - a definition with the EMPTY kind is registered; a cause that cannot be resolved
+			for _, strict := range []bool{true, false} {
+				out = append(out, runC12(c12Desc{Case: UCase{Cfg: UCfg{Defs: []UDef{{Kind: ""}, {Kind: "k1"}}, Reg: []int{0, 1}, Strict: strict},
+					Doc: &UDoc{Msg: "m", Kind: "k1", Causes: []*UDoc{{Msg: "c", Kind: "nope"}}}}})...)
+			}
 			for i := 0; i < n; i++ {
 				c := UCase{Cfg: genUCfg(r), Doc: genUDoc(r, 1+i*3/n)}
+				if r.Chance(1, 25) {
+					c.Cfg.Defs[0].Kind = "" // a definition with the empty kind (K11 when it is registered)
+				}
 				if len(c.Cfg.Reg) > 0 {
 					c.Doc.Kind = c.Cfg.Defs[Pick(r, c.Cfg.Reg)].Kind
 				}
@@ -109,6 +117,7 @@ func runC12(d c12Desc) []Case {
 	cs, res := runUMFull(d.Case)
 	marshals, fix := false, true
 	lib := "None"
+	ndd, rp := "None", "[]"
 	var second *Case
 	if res != nil {
 		func() {
@@ -123,6 +132,24 @@ func runC12(d c12Desc) []Case {
 			}
 			marshals = true
 			w := buildUM(d.Case)
+			// n as the JSON decoder hands it to unmarshal, and strconv on the float32 values bound in r:
+			// validation of Model/Redoc.redoc (Check/C12.ndd_ok)
+			var nd unmarshaler.DecodedData
+			if json.Unmarshal(n, &nd) == nil {
+				ndd = ddCoq(&nd, w.targets)
+			}
+			tbl := map[uint32]uint64{}
+			collectF32(res, tbl)
+			var keys []uint32
+			for k := range tbl {
+				keys = append(keys, k)
+			}
+			sort.Slice(keys, func(i, j int) bool { return keys[i] < keys[j] })
+			var ps []string
+			for _, k := range keys {
+				ps = append(ps, fmt.Sprintf("(%s, %s)", cZu(uint64(k)), cZu(tbl[k])))
+			}
+			rp = cList(ps)
 			r2, err := unmarshaler.NewJSON(w.res, w.options()...).Unmarshal(n)
 			if err != nil {
 				fix = false
@@ -141,8 +168,8 @@ func runC12(d c12Desc) []Case {
 	native := docNative(d.Case.Doc)
 	redec := redecodeSamples(d)
 	wrap := func(c Case, marshals, fix bool, lib string) Case {
-		c.Coq = fmt.Sprintf("{| c_um := %s; c_native := %s; c_marshals := %s; c_fix := %s; c_lib := %s; c_redec := %s |}", c.Coq, cBool(native), cBool(marshals), cBool(fix), lib, redec)
-		redec = "[]" // once per description
+		c.Coq = fmt.Sprintf("{| c_um := %s; c_native := %s; c_marshals := %s; c_fix := %s; c_lib := %s; c_redec := %s; c_ndd := %s; c_rp := %s |}", c.Coq, cBool(native), cBool(marshals), cBool(fix), lib, redec, ndd, rp)
+		redec, ndd, rp = "[]", "None", "[]" // once per description
 		c.Desc = mustJSON(c12Desc{Case: d.Case, Lib: d.Lib})
 		return c
 	}
@@ -155,8 +182,14 @@ func runC12(d c12Desc) []Case {
 	if d.Lib && d.Case.Cfg.Default != nil {
 		first.Tags = append(first.Tags, "default-resolver-kindless-cause")
 	}
-	if d.Lib && d.Case.Cfg.Strict && nullField.MatchString(d.Case.Bytes) {
+	if d.Lib && d.Case.Cfg.Strict && hasNullField([]byte(d.Case.Bytes)) {
 		first.Tags = append(first.Tags, "null-valued-field-in-library-document")
+	}
+	for _, ri := range d.Case.Cfg.Reg {
+		if ri >= 0 && ri < len(d.Case.Cfg.Defs) && d.Case.Cfg.Defs[ri].Kind == "" {
+			first.Tags = append(first.Tags, "empty-kind-definition-registered")
+			break
+		}
 	}
 	if docHasValue(d.Case.Doc, "fmaxf32") || docHasValue(d.Case.Doc, "f-maxf32") {
 		first.Tags = append(first.Tags, "float32-maxfloat32-roundtrip")
@@ -170,8 +203,59 @@ func runC12(d c12Desc) []Case {
 	return out
 }
 
-// a field member whose value is null, inside a "fields" object
-var nullField = regexp.MustCompile(`"fields":\{[^{}]*"[^"]*":null`)
+// collectF32: every finite float32 value bound in a restored error (all nodes), with the bits of the
+// float64 that its JSON text parses to
+func collectF32(e error, out map[uint32]uint64) {
+	ue, ok := e.(unmarshaler.UnmarshaledError)
+	if !ok {
+		return
+	}
+	for _, fv := range ue.Fields().All() {
+		rv := reflect.ValueOf(fv.Value())
+		if rv.IsValid() && rv.Kind() == reflect.Float32 {
+			f := float32(rv.Float())
+			if b, err := json.Marshal(f); err == nil {
+				var g float64
+				if json.Unmarshal(b, &g) == nil {
+					out[canonF32(f)] = canonF64(g)
+				}
+			}
+		}
+	}
+	for _, c := range ue.Unwrap() {
+		collectF32(c, out)
+	}
+}
+
+// hasNullField: some node of the document has a "fields" member one of whose values is null
+func hasNullField(doc []byte) bool {
+	var v any
+	if json.Unmarshal(doc, &v) != nil {
+		return false
+	}
+	var walk func(x any) bool
+	walk = func(x any) bool {
+		switch t := x.(type) {
+		case map[string]any:
+			if fs, ok := t["fields"].(map[string]any); ok {
+				for _, fv := range fs {
+					if fv == nil {
+						return true
+					}
+				}
+			}
+			if cs, ok := t["causes"].([]any); ok {
+				for _, c := range cs {
+					if walk(c) {
+						return true
+					}
+				}
+			}
+		}
+		return false
+	}
+	return walk(v)
+}
 
 func umValueIndex(name string) int {
 	for i, v := range umValues {
